@@ -326,6 +326,15 @@ def _rand_diff(rng, single, max_pkgs=40):
     # file order: non-decreasing measure, channels of one measure in any order
     rng.shuffle(pk)
     pk.sort(key=lambda p: p[0])
+    if rng.random() < 0.3:
+        # the format does not order packages of different channels: put the tempo-channel packages anywhere in the
+        # file (note packages stay in time order: long-note pairing needs that)
+        tempo = [p for p in pk if p[1] == 1]
+        rest = [p for p in pk if p[1] != 1]
+        rng.shuffle(tempo)
+        for p in tempo:
+            rest.insert(rng.randrange(0, len(rest) + 1), p)
+        pk = rest
     return pk
 
 
@@ -549,7 +558,7 @@ def ojn_small_files_vs_interpreter(rep):
 def ojn_random_files_vs_interpreter(rep):
     rng = rep.rng
     N = rep.n(200, 3000)
-    rep.bound = (f"{N} seeded random files: per difficulty 1-40 packages in non-decreasing measure order (distinct (measure, channel)), slot counts from "
+    rep.bound = (f"{N} seeded random files: per difficulty 1-40 packages, note packages in non-decreasing measure order (distinct (measure, channel)), tempo-channel packages anywhere in the file in 30% of the difficulties, slot counts from "
                  "{1,2,3,4,8,16,192}, 0-6 tempo events (a quarter of them after the last note measure) with values from a pool incl. 0.75 and 1000 or a random "
                  "float32 in [30,480], notes start at measure 0/1/2/5 and span 1-12 measures, hits / head-tail pairs on columns 0-6, channels 9-22 sometimes present, "
                  "random header fields, NUL-padded ASCII texts of length 0..field size, 0/5/64 cover bytes; 35% of the files have at most one tempo event "
